@@ -342,9 +342,11 @@ def make_zernike_basis(num_modes, D, grid, starting_mode=1, ansi=False, radial_c
     else:
         polar_grid = grid.as_('polar')
 
-    if use_cache:
+    if use_cache and grid is not None:
         cache = {}
     else:
+        # Field generators can be evaluated on any grid, while a cache is only valid for
+        # the single grid it was filled on: the generators must not share a cache.
         cache = None
 
     modes = [f(i, D, polar_grid, radial_cutoff, cache) for i in range(starting_mode, starting_mode + num_modes)]
